@@ -168,7 +168,14 @@ def check_case(ctx, case):
     ref_answers = None
     for p, ps in case["configs"]:
         snapshot = b.copy()
+        b_before = b.copy()
         ok, tree, tb = ctx.guarded(HilbertRtree, b, p, ps)
+        ctx.count("input_untouched_checked")
+        if not np.array_equal(b, b_before, equal_nan=True):
+            ctx.violation("input-modified", "rtree:build-writes-into-callers-bounds",
+                          {"d": d, "n": n, "page_size": ps, "p": p}, expected=b_before.tolist()[:10],
+                          observed=b.tolist()[:10], case={**case, "configs": [[p, ps]]})
+            b = b_before
         if not ok:
             rec_raise("build", tree, tb)
             continue
